@@ -1108,6 +1108,8 @@ impl Scenario for C19 {
     }
 
     fn run(&self, case: &Case, ctx: &Arc<RunCtx>) -> RunOut {
+        // switch threads only at this scenario's own layer's sites (see sched::Baton::allow)
+        crate::sched::set_allowed_sites(&["c19.", "blob."]);
         let mut out = RunOut::default();
         let chunk = case.chunk.max(1);
         let cfg = BlobConfig::new()
